@@ -70,6 +70,11 @@ fn run(v: &serde_lite::Value) -> String {
             let ts = TimeScale::new(f(v.get("dur")), f(v.get("delay")), rep(v.get("repeat")), v.get("reverse") == "true");
             format!("{{\"duration\":{},\"delay\":{},\"cycle\":{}}}", ts.get_duration().to_bits(), ts.get_delay().to_bits(), ts.get_cycle_duration().to_bits())
         }
+        "dur" => {
+            let x = f(v.get("x"));
+            let d = std::time::Duration::from_secs_f32(x);
+            format!("{{\"nanos\":\"{}\",\"as_f32\":{}}}", d.as_nanos(), d.as_secs_f32().to_bits())
+        }
         "ease" => {
             use mina_core::easing::{Easing, EasingFunction};
             let e = match v.get("easing") {
